@@ -173,7 +173,7 @@ func (g *gen) runChildOnce(root, url string, b *bundleT, crashAt string) (points
 }
 
 // parentSet performs a complete Set in this process with a recording hook.
-func (g *gen) parentSet(fc *crl.FileCache, root, url string, b *bundleT) (points []int, tmp string) {
+func (g *gen) parentSet(fc *crl.FileCache, root, url string, b *bundleT) (points []int, tmp string, ok bool) {
 	verifbridge.SetWriteFileHook(func(point, path string) {
 		points = append(points, pointCode(point))
 		if point == "created" {
@@ -185,6 +185,7 @@ func (g *gen) parentSet(fc *crl.FileCache, root, url string, b *bundleT) (points
 	if err != nil && len(points) > 0 && points[len(points)-1] == 4 {
 		points[len(points)-1] = 5
 	}
+	ok = err == nil
 	return
 }
 
@@ -240,10 +241,17 @@ func (g *gen) killAtPoints() {
 						writers = append(writers, wspec{url, b})
 						var p []int
 						var t string
+						retOK := false
 						if inProc {
-							p, t = g.parentSet(fc, root, url, b)
+							p, t, retOK = g.parentSet(fc, root, url, b)
 						} else {
-							p, t, _, _ = g.runChildOnce(root, url, b, "")
+							var ret string
+							p, t, _, ret = g.runChildOnce(root, url, b, "")
+							retOK = ret == "ok"
+						}
+						p = padPoints(p, 4)
+						if retOK {
+							p[3] = 4 // Set returned nil: the API-level return, whatever hooks were seen
 						}
 						if t != "" {
 							tmps[wi] = t
